@@ -1,5 +1,5 @@
 /- L0 facts about the accessors, Display and Default of RelativeStrengthIndex (split from Lemmas/RelativeStrengthIndex.lean so that a change to one method only invalidates the facts about that method) -/
-import TaRs.Lemmas.RelativeStrengthIndex
+import TaRs.Lemmas.Core.RelativeStrengthIndex
 import TaRs.Lemmas.Misc.ExponentialMovingAverage
 set_option linter.unusedSectionVars false
 namespace TaRs.Gen.RelativeStrengthIndex
